@@ -4,9 +4,10 @@
 # build wants m4, which this sandbox does not have. Generic C (no assembly): needs no m4.
 set -e
 SRC=$(ls -d ~/.cargo/registry/src/*/gmp-mpfr-sys-1.7.1 | head -1)
-CACHE=/verif/.cache/gmp-mpfr-sys
+VERIF=$(cd "$(dirname "$0")/.." && pwd)
+CACHE=$VERIF/.cache/gmp-mpfr-sys
 DEST=$CACHE/1.7/x86_64-unknown-linux-gnu/1.7.1
-B=/verif/.cache/gmp-build
+B=$VERIF/.cache/gmp-build
 rm -rf $B; mkdir -p $B/gmp $B/mpfr $B/mpc $DEST
 J=$(nproc)
 cd $B/gmp && M4=/bin/true sh $SRC/gmp-6.3.0-c/configure --disable-assembly --disable-shared --with-pic >/dev/null && make -j$J >/dev/null 2>&1
